@@ -146,6 +146,11 @@ pub fn check_utc(rep: &mut Rep, w: &World, u: i128, file: Option<&LeapSecondsFil
     rep.log_event("utc2tai", || format!("\"u\":\"{}\",\"want\":\"{}\"", u, t));
     rep.sample("utc", || format!("UTC count {} ns => offset {} s, TAI count {}", u, off, t));
     let e = ep(u, TimeScale::UTC);
+    if let Ok(c2) = guard(|| Epoch::from_utc_duration(mk(u))) {
+        if c2.time_scale != TimeScale::UTC || c2.duration.to_parts() != e.duration.to_parts() {
+            rep.fail("utc/ctor", None, || format!("from_utc_duration({u}) = ({}, {:?})", count_d(c2.duration), c2.time_scale));
+        }
+    }
     match guard(|| {
         let a = e.to_time_scale(TimeScale::TAI);
         let b = e.to_tai_duration();
